@@ -136,42 +136,79 @@ func ruleC14ParentReresolved(c *Ctx) {
 		return
 	}
 	key := strip(callArgs(&acc.Call)[0])
-	// each way the key value can arrive (phi edges): the sk parameter needs the equality guard; the re-resolved key must
-	// come from getOrLoadSystemKey(*ekr.ParentKeyMeta)
+	// each way the key value can arrive (phi edges, or the returns of a helper that picks the key): the sk parameter needs
+	// the equality guard; the re-resolved key must come from getOrLoadSystemKey(*ekr.ParentKeyMeta)
 	var problems []string
-	edges := []ssa.Value{key}
-	var preds []*ssa.BasicBlock
-	if phi, ok := key.(*ssa.Phi); ok {
-		edges = phi.Edges
-		preds = phi.Block().Preds
+	type way struct {
+		v     ssa.Value
+		facts func(cond func([]Fact) bool) bool // does cond hold on every entry to the point where v is chosen
 	}
-	for k, e := range edges {
-		e = strip(e)
+	var ways []way
+	fn, skIdx, ekrIdx := f, 1, 2
+	if ex, isEx := key.(*ssa.Extract); isEx && ex.Index == 0 {
+		if cv, isC := ex.Tuple.(*ssa.Call); isC {
+			if h := staticCallee(cv); h != nil && h.Blocks != nil && h.Name() != "getOrLoadSystemKey" && h.Pkg != nil && h.Pkg.Pkg.Path() == pkgApp {
+				// a helper chooses the key: analyse its non-error returns in its own frame
+				si, ei := -1, -1
+				for k, a := range cv.Call.Args {
+					if isParamNamed(a, f, 1) || resolve(a) == ssa.Value(f.Params[1]) || accessPath(a) == "P:"+f.Params[1].Name() {
+						si = k
+					}
+					if isParamNamed(a, f, 2) || resolve(a) == ssa.Value(f.Params[2]) || accessPath(a) == "P:"+f.Params[2].Name() {
+						ei = k
+					}
+				}
+				if si >= 0 && ei >= 0 {
+					fn, skIdx, ekrIdx = h, si, ei
+					c.FuncsAnalysed[shortName(h)] = true
+					for _, r := range returnsOf(h) {
+						if len(r.Results) != 2 || !isNilValue(returnedValue(r, 1)) {
+							continue
+						}
+						rb := r.Block()
+						ways = append(ways, way{strip(returnedValue(r, 0)), func(cond func([]Fact) bool) bool { return holdsOnAllEntries(rb, cond) }})
+					}
+				}
+			}
+		}
+	}
+	if len(ways) == 0 {
+		if phi, ok := key.(*ssa.Phi); ok {
+			for k, e := range phi.Edges {
+				p, pb := phi.Block().Preds[k], phi.Block()
+				ways = append(ways, way{strip(e), func(cond func([]Fact) bool) bool {
+					return cond(append(edgeFacts(p, pb), factsAt(p)...))
+				}})
+			}
+		} else {
+			ab := acc.Block()
+			ways = append(ways, way{key, func(cond func([]Fact) bool) bool { return holdsOnAllEntries(ab, cond) }})
+		}
+	}
+	ekrPath := "P:" + fn.Params[ekrIdx].Name()
+	for _, w := range ways {
+		e := w.v
 		switch {
-		case isParamNamed(e, f, 1):
-			// on this edge: sk.Created() == ekr.ParentKeyMeta.Created must hold, or ekr/ParentKeyMeta is nil (nothing to compare)
-			var facts []Fact
-			if preds != nil {
-				facts = append(edgeFacts(preds[k], key.(*ssa.Phi).Block()), factsAt(preds[k])...)
-			} else {
-				facts = factsAt(acc.Block())
-			}
-			ok := false
-			for _, fct := range facts {
-				b, isB := fct.V.(*ssa.BinOp)
-				if !isB {
-					continue
+		case isParamNamed(e, fn, skIdx):
+			// here sk.Created() == ekr.ParentKeyMeta.Created must hold, or ekr/ParentKeyMeta is nil (nothing to compare)
+			ok := w.facts(func(facts []Fact) bool {
+				for _, fct := range facts {
+					if xx, isNil, isT := nilTest(fct); isT && isNil && (strings.HasSuffix(accessPath(xx), ekrPath+".ParentKeyMeta") || accessPath(xx) == ekrPath) {
+						return true // no parent meta to compare against
+					}
+					b, isB := fct.V.(*ssa.BinOp)
+					if !isB {
+						continue
+					}
+					x, y := createdOf(b.X), createdOf(b.Y)
+					isPM := func(v ssa.Value) bool { return strings.HasSuffix(accessPath(v), ekrPath+".ParentKeyMeta.Created") }
+					match := (x != nil && isParamNamed(x, fn, skIdx) && isPM(b.Y)) || (y != nil && isParamNamed(y, fn, skIdx) && isPM(b.X))
+					if match && ((b.Op == token.NEQ && !fct.True) || (b.Op == token.EQL && fct.True)) {
+						return true
+					}
 				}
-				x, y := createdOf(b.X), createdOf(b.Y)
-				isPM := func(v ssa.Value) bool { return strings.HasSuffix(accessPath(v), "P:ekr.ParentKeyMeta.Created") }
-				match := (x != nil && isParamNamed(x, f, 1) && isPM(b.Y)) || (y != nil && isParamNamed(y, f, 1) && isPM(b.X))
-				if match && ((b.Op == token.NEQ && !fct.True) || (b.Op == token.EQL && fct.True)) {
-					ok = true
-				}
-				if xx, isNil, isT := nilTest(fct); isT && isNil && (strings.HasSuffix(accessPath(xx), "P:ekr.ParentKeyMeta") || accessPath(xx) == "P:ekr") {
-					ok = true // no parent meta to compare against
-				}
-			}
+				return false
+			})
 			if !ok {
 				problems = append(problems, "the passed-in system key is used without the sk.Created() == ekr.ParentKeyMeta.Created test")
 			}
@@ -179,7 +216,7 @@ func ruleC14ParentReresolved(c *Ctx) {
 			good := false
 			if ex, isEx := e.(*ssa.Extract); isEx {
 				if cv, isC := ex.Tuple.(*ssa.Call); isC {
-					if g := staticCallee(cv); g != nil && g.Name() == "getOrLoadSystemKey" && strings.TrimPrefix(accessPath(cv.Call.Args[2]), "*") == "P:ekr.ParentKeyMeta" {
+					if g := staticCallee(cv); g != nil && g.Name() == "getOrLoadSystemKey" && strings.TrimPrefix(accessPath(cv.Call.Args[2]), "*") == ekrPath+".ParentKeyMeta" {
 						good = true
 					}
 				}
